@@ -500,15 +500,33 @@ def indian_GetMonthLen (year : Int) (month : Int) : Option Int := do
     else
       pure 30
 
--- NOT TRANSLATED: hijri_IsLeap (cal_types/hijri/hijri.go:465): call of github.com/ilius/libgostarcal/cal_types/hijri.isLeapYear (not in the list of translated functions)
+/-- cal_types/hijri/hijri.go:244 -/
+def hijri_IsLeap (year : Int) : Option Bool := do
+  pure (decide ((← (utils_Mod ((year * 11) + 14) 30)) < 11))
 
--- NOT TRANSLATED: hijri_ToJd (cal_types/hijri/hijri.go:469): call of github.com/ilius/libgostarcal/cal_types/hijri.toJd (not in the list of translated functions)
+/-- cal_types/hijri/hijri.go:248 -/
+def hijri_ToJd (date : GoSem.Date) : Option Int := do
+  pure (((((date).Day + (GoSem.ftoi ((Rat.ceil (((59 : Rat) / 2) * (((GoSem.u8 ((date).Month - 1)) : Int) : Rat)) : Int) : Rat))) + (((date).Year - 1) * 354)) + (← (utils_Div ((11 * (date).Year) + 3) 30))) + 1948440)
 
--- NOT TRANSLATED: hijri_JdTo (cal_types/hijri/hijri.go:473): call of github.com/ilius/libgostarcal/cal_types/hijri.toJd (not in the list of translated functions)
+/-- cal_types/hijri/hijri.go:262 -/
+def hijri_JdTo (jd : Int) : Option GoSem.Date := do
+  let year ← (utils_Div ((30 * ((jd - 1) - 1948440)) + 10646) 10631)
+  let month := (GoSem.u8 (← (utils_IntMin 12 (GoSem.ftoi ((Rat.ceil (((((jd : Int) : Rat) + ((1 : Rat) / 2)) - (((← (hijri_ToJd (← (SrcExt.lib_NewDate year 1 1)))) : Int) : Rat)) / ((59 : Rat) / 2)) : Int) : Rat)))))
+  let day := (GoSem.u8 ((jd - (← (hijri_ToJd (← (SrcExt.lib_NewDate year month 1))))) + 1))
+  (SrcExt.lib_NewDate year month day)
 
--- NOT TRANSLATED: hijri_GetMonthLen (cal_types/hijri/hijri.go:489): call of github.com/ilius/libgostarcal/cal_types/hijri.isLeapYear (not in the list of translated functions)
+/-- cal_types/hijri/hijri.go:281 -/
+def hijri_GetMonthLen (year : Int) (month : Int) : Option Int := do
+  if (decide ((Int.tmod month 2) = 1)) then
+    pure 30
+  else
+    let _c1 ← (do if (decide (month = 12)) then (hijri_IsLeap year) else pure false)
+    if _c1 then
+      pure 30
+    else
+      pure 29
 
 /-- the functions translated on this run -/
-def translated : List String := ["utils_Mod", "utils_Div", "utils_Divmod", "utils_IntMin", "utils_GetHmsBySeconds", "utils_MonthListIsValid", "utils_DayListIsValid", "utils_WeekDayListIsValid", "lib_GetTotalSeconds", "lib_GetFloatHour", "lib_FloatHourToHMS", "lib_toUint8", "lib_HMS_IsValid", "lib_Date_IsValid", "interval_Less", "julian_IsLeap", "julian_getYearDays", "julian_getMonthDayFromYdays", "julian_ToJd", "julian_JdTo", "julian_GetMonthLen", "jalali_IsLeap", "jalali_getMonthDayFromYdays", "jalali_ToJd", "jalali_JdTo", "jalali_GetMonthLen", "ethiopian_IsLeap", "ethiopian_ToJd", "ethiopian_JdTo", "ethiopian_GetMonthLen", "gprol_IsLeap", "gprol_ToJd", "gprol_JdTo", "gprol_GetMonthLen", "indian_IsLeap", "indian_ToJd", "indian_JdTo", "indian_GetMonthLen"]
+def translated : List String := ["utils_Mod", "utils_Div", "utils_Divmod", "utils_IntMin", "utils_GetHmsBySeconds", "utils_MonthListIsValid", "utils_DayListIsValid", "utils_WeekDayListIsValid", "lib_GetTotalSeconds", "lib_GetFloatHour", "lib_FloatHourToHMS", "lib_toUint8", "lib_HMS_IsValid", "lib_Date_IsValid", "interval_Less", "julian_IsLeap", "julian_getYearDays", "julian_getMonthDayFromYdays", "julian_ToJd", "julian_JdTo", "julian_GetMonthLen", "jalali_IsLeap", "jalali_getMonthDayFromYdays", "jalali_ToJd", "jalali_JdTo", "jalali_GetMonthLen", "ethiopian_IsLeap", "ethiopian_ToJd", "ethiopian_JdTo", "ethiopian_GetMonthLen", "gprol_IsLeap", "gprol_ToJd", "gprol_JdTo", "gprol_GetMonthLen", "indian_IsLeap", "indian_ToJd", "indian_JdTo", "indian_GetMonthLen", "hijri_IsLeap", "hijri_ToJd", "hijri_JdTo", "hijri_GetMonthLen"]
 
 end Starcal.Gen.Src
